@@ -265,7 +265,7 @@ func allChecks() []Check {
 			},
 			Bounds: map[string]string{"pool": "CONCRETE POOL (not symbolic, real time package): 30 formulas through parser and runner at calendar boundaries (year 1 and the zero instant as an ordinary value, leap days of 1900/2000/2023/2024, month 0 / 13 / 14 and day 0 / 30 / 32 carry, week days, day shifts of 1 and 200000 days in milliseconds) with hand-written expectations",
 				"all": "package time is environment: Date, AddDate, Year..Weekday, Format, Now are uninterpreted functions of (instant, zone) / a non-decreasing symbolic clock; the solver decides, for all y in 1..9999, m in -50..60, d in -800..800, all shift triples, all instants from year 68 to 9892, three zones, the *wiring* of the 14 date builtins to those primitives (argument order, 1-based month, weekday, milliseconds, In vs UTC, local midnight, clock bracket); native replays of sampled models compare against the real time package and an independent days-from-civil computation"},
-			Outside:     []string{"that Go's time package implements the proleptic Gregorian calendar and the zone rules (trusted; calendar arithmetic on symbolic years times out in z3, z3 5.1 and cvc5)", "daylight-saving zones (no zone database in the engine)"},
+			Outside:     []string{"that Go's time package implements the proleptic Gregorian calendar and the zone rules (trusted; calendar arithmetic on symbolic years times out in z3, z3 5.1 and cvc5)", "daylight-saving zones in the engine (no zone database there); seven civil shifts across DST transitions are decided by the native replay only (C19/pool/dst-civil-shift, skipped when the replay environment has no zone database)"},
 			Assumptions: commonAssumptions,
 		},
 		{
